@@ -390,6 +390,11 @@ fn gen_base(seed: u64, i: u64, corpus: &Corpus) -> (String, Project, String, boo
     p.modules.extend(corpus.tests.iter().cloned());
     return ("tests.*".into(), p.with_std(), "tests.AllTests".into(), false);
   }
+  if i % 5 == 1 {
+    // every binder form in every binding construct, names reused in disjoint scopes
+    let text = vcore::exprgen::binder_zoo(&mut rng);
+    return (format!("binder zoo {i}"), Project::single("Zoo", &text).with_std(), "Zoo".into(), true);
+  }
   let pseed = seed.wrapping_mul(1_000_003).wrapping_add(i);
   let g = pgen::generate(pseed, &GenConfig::default_for(pseed));
   let mut p = g.project.with_std();
